@@ -452,7 +452,7 @@ class ConsHist(Engine):
         "script = 30-150 constructions through every public constructor of one ExpressionManager (And/Or/Not/Implies/"
         "Iff/Exists/Forall/Equals/LE/GE/LT/GT/Plus/Minus/Times/Div/FluentExp/ParameterExp/VariableExp/ObjectExp/Int/"
         "Real/Bool, auto-promotion of python literals and model objects, FNode operator overloading and methods), >= 40% "
-        "repetitions of earlier descriptors spelled differently (list vs unpacked arguments, GE vs mirrored LE, 1-ary "
+        "repetitions of earlier descriptors spelled differently (list vs unpacked arguments, in 30% of the scripts n-ary constructions with 5-16 operands built twice with different spellings of their literals, GE vs mirrored LE, 1-ary "
         "And, double negation, 2 vs 2.0 vs '2' vs '2.0' vs '4/2' vs Fraction(2)), XOr and the trajectory operators, quantifiers with "
         "repeated variables, a bystander that pickles / deep-copies an interpreted function in use, two interpreted functions that "
         "differ only in their callable, ~10% ill-typed constructions, and (async profile) "
@@ -650,6 +650,34 @@ class ConsHist(Engine):
                 else:
                     d = variant(None, e) if ro.random() < 0.7 else e
                 ops.append({"op": "cons", "d": d})
+        # round 8 (scale): WIDE n-ary constructions, 5-16 operands given unpacked, as a list or as a generator, some of
+        # them python literals in their various spellings; the same operands again with other spellings must give the
+        # identical node.  A stream of its own: the other runs are what they were.
+        rwide = stream(seed, "wide")
+        if rwide.random() < 0.3:
+            for _ in range(rwide.randint(1, 3)):
+                k_ = rwide.choice(["plus", "times", "plus", "and", "or"])
+                n_ = rwide.randint(5, 16)
+                if k_ in ("and", "or"):
+                    base = [rwide.choice(pb) for _ in range(n_)]
+                    twins = [base, base]
+                else:
+                    base, other = [], []
+                    for _ in range(n_):
+                        if rwide.random() < 0.25:
+                            v = rwide.randint(2, 30)
+                            sp = [["lit", "int", v], ["lit", "str", str(v)], ["int", v], ["lit", "float", f"{v}.0"],
+                                  ["lit", "str", f"{v}.0"]]
+                            base.append(rwide.choice(sp))
+                            other.append(rwide.choice(sp))
+                        else:
+                            e_ = rwide.choice(pn)
+                            base.append(e_)
+                            other.append(e_)
+                    twins = [base, other]
+                for ops_ in twins:
+                    ops.insert(rwide.randrange(len(ops) + 1),
+                               {"op": "cons", "d": [k_] + ops_ + [rwide.choice(["unpack", "unpack", "list", "gen"])]})
         if want_pickle:
             # another party copies / pickles what the environment holds (the parallel engines do): nothing an existing
             # node is made of may change because of it
